@@ -92,6 +92,7 @@ SX_PLANS = {
     "C05": ("solve:midconflict,conflict,direct,base,cyclic,selfreq", 50, 800),
     "C07": ("solve:clean,unionoverlap,manycands", 60, 800),
     "C08": ("solve:direct,direct2", 100, 1500),
+    "C13": ("history:base,hints,soft,excl,midconflict,unknown", 30, 600),
     "C14": ("solve:soft,softhints,softconflict,softeager,softlone", 80, 1200),
     "C15": ("solve:hintcons,manycands", 60, 800),
 }
@@ -629,16 +630,15 @@ def step_exact_replay(prop, tier, seed, plan, n, timeout=600):
     vlib.gen_cases(exe, allc, plan, n, seed + 4242, "", whitebox=True, render=False, first_id=800001)
     trace = os.path.join(wd, "sx.trace")
     vlib.run_cases(exe, allc, trace)
-    # per case: decisions (as solvables) and the result
+    # per case and solve: decisions (as solvables) and the result
     runs, cur, var2solv = {}, None, {}
     with open(trace) as f:
         for line in f:
             if '"ev":"begin"' in line:
                 b = json.loads(line)
-                cur = b["id"] if b["k"] == 1 and b["fresh"] else None
+                cur = (b["id"], b["k"])
                 var2solv = {}
-                if cur is not None:
-                    runs[cur] = {"id": cur, "dec": [], "kind": "", "sol": []}
+                runs[cur] = {"dec": [], "kind": "", "sol": []}
             elif cur is None:
                 continue
             elif '"ev":"var"' in line:
@@ -659,12 +659,13 @@ def step_exact_replay(prop, tier, seed, plan, n, timeout=600):
     with open(allc) as fin, open(cases_f, "w") as fc, open(runs_f, "w") as fr:
         for line in fin:
             c = json.loads(line)
-            r = runs.get(c["id"])
-            if r is None or r["kind"] not in ("sat", "unsat") or len(c.get("ps", [])) != 1:
+            solves = [runs.get((c["id"], k + 1)) for k in range(len(c.get("ps", [])))]
+            # histories with a solve that was cancelled / panicked are left to the other rules
+            if not solves or any(r is None or r["kind"] not in ("sat", "unsat") for r in solves):
                 continue
             fc.write(line)
-            fr.write(json.dumps(r) + "\n")
-            kept += 1
+            fr.write(json.dumps({"id": c["id"], "solves": [{"dec": r["dec"], "kind": r["kind"], "sol": r["sol"]} for r in solves]}) + "\n")
+            kept += len(solves)
     if kept == 0:
         return {"step_exact_cases": 0}, []
     out, st = vlib.tlc("Trace_CdclW.tla", "Trace_CdclW.cfg", os.path.join(vlib.WORK, f"md_sx_{prop}"),
@@ -686,10 +687,11 @@ def step_exact_replay(prop, tier, seed, plan, n, timeout=600):
     for line in out.splitlines():
         if line.startswith('"REPLAYED|'):
             f = line.strip().strip('"').split("|")
-            rep[int(f[1])] = (f[2], f[3], int(f[4]), int(f[5]), int(f[6]), f[7] if len(f) > 7 else "")
+            ck = tuple(int(x) for x in f[1].split("."))
+            rep[ck] = (f[2], f[3], int(f[4]), int(f[5]), int(f[6]), f[7] if len(f) > 7 else "")
         elif line.startswith('"DIVERGE|'):
             f = line.strip().strip('"').split("|")
-            div[int(f[1])] = {"at_decision": int(f[2]), "real": f[3], "model_offers": f[4]}
+            div[tuple(int(x) for x in f[1].split("."))] = {"at_decision": int(f[2]), "real": f[3], "model_offers": f[4]}
     exact, differ = 0, []
     learnt_total = 0
     ids_compared = 0
@@ -704,9 +706,9 @@ def step_exact_replay(prop, tier, seed, plan, n, timeout=600):
         if k == r["kind"] and (k != "sat" or sol == ",".join(str(x) for x in r["sol"])) and nd == len(r["dec"]) and same_ids:
             exact += 1
         elif cid not in div:
-            differ.append({"case": cid, "real": [r["kind"], r["sol"], len(r["dec"]), r.get("ids")], "model": [k, sol, nd, ids]})
+            differ.append({"case": list(cid), "real": [r["kind"], r["sol"], len(r["dec"]), r.get("ids")], "model": [k, sol, nd, ids]})
     info = {"step_exact_cases": kept, "step_exact_reproduced": exact, "step_exact_diverged": len(div),
-            "step_exact_outcome_differs": len(differ), "step_exact_examples": (list(div.items())[:3] + differ[:3]),
+            "step_exact_outcome_differs": len(differ), "step_exact_examples": ([{"case": list(k), **v} for k, v in list(div.items())[:3]] + differ[:3]),
             "step_exact_states": st["distinct"], "step_exact_learnt_clauses_in_model": learnt_total,
             "step_exact_plan": plan,
             "step_exact_reported_clause_sets_compared": ids_compared}
